@@ -248,7 +248,10 @@ func C05(e *Env) {
 		privateTree(root, s.P[1:])
 		w := *t.w
 		w.SnapDir = filepath.Join(root, s.P[1:])
-		res := RunLockstep(t.p.HostPort(), &w, s.reqs, e.Watchdog, 0, false)
+		// some sessions deliver every request in small pieces (a path split over several segments must
+		// still be acted on as a whole)
+		chunk := []int{0, 0, 0, 1, 7, 19}[i%6]
+		res := RunLockstep(t.p.HostPort(), &w, s.reqs, e.Watchdog, chunk, false)
 		run.Eval(1)
 		if res.Fail != nil {
 			wit := map[string]any{"target": t.name, "private_dir": s.P, "tags": s.tags, "requests": reqStrings(s.reqs), "failed_at": res.FailAt, "failed_request": reqAt(s.reqs, res.FailAt), "transcript": tailStr(res.Log, 14)}
